@@ -453,3 +453,76 @@ gcsim("C12", "Concurrent Immix preserves the snapshot-at-the-beginning",
       note="Objects the SATB barrier cannot iterate (scan_object_and_trace_edges objects) and NonMoving objects (known finding) are not used under ConcurrentImmix.",
       design_ref="2/C12", shards=c12_shards,
       floors={"quick": {"initial_mark_pauses": 20, "final_mark_pauses": 20, "snapshot_objects": 5000, "snapshot_objects_unreachable_at_final_mark_verified": 500}})
+
+
+def sched_shards(tier, seed, salt, scenario=None, plans=None):
+    """Event-log shards: every plan, worker counts 1..8, failpoints (delays after poll / before park /
+    at notify) on every shard, chaos (spurious wakeups, yields) on every other shard."""
+    rnd = _rng(seed, salt)
+    shards = []
+    reps = 1 if tier == "quick" else 6
+    ops = 14000 if tier == "quick" else 40000
+    i = 0
+    for variant, vplans in (("A", PLANS_A), ("B", ["Compressor", "StickyImmix", "GenImmix"])):
+        for plan in vplans:
+            if plan == "NoGC" or (plans and plan not in plans):
+                continue
+            for _ in range(reps):
+                i += 1
+                flags = ["events", "failpoints"] + (["chaos"] if i % 2 else []) + (["weak", "finalizers"] if i % 3 == 0 else [])
+                shards.append(gc_shard(variant, plan, rnd, ops, flags=flags, scenario=scenario,
+                                       workers=rnd.choice([1, 2, 3, 4, 8]), mutators=rnd.choice([1, 2, 4]),
+                                       heap=rnd.choice([32, 64]), stress=rnd.choice([100000, 200000, 400000])))
+    return shards
+
+
+SCHED_RULE = ("gcsim programs (all collecting plans, variant A + Compressor/StickyImmix/GenImmix of variant B; 1-8 GC workers, 1-4 mutators; allocation-stress GCs every 100-400 KB, user GC requests, "
+              "gc_poll, and user work-packet fan-out trees injected into the always-open and the stop-the-world buckets) with the mmtk_verif event log enabled: every scheduler transition "
+              "(goal request/start/finish, worker park/unpark/last-parked decision, bucket open/close, packet add/start/end, designated work, local-queue flush, stop/resume/scan callbacks) is recorded in a "
+              "lock-free ring with a global sequence number and checked online by a monitor thread; failpoints delay workers after polling a packet, before parking and at notify; chaos = spurious wakeups; ")
+
+gcsim("C11", "Stop-the-world work only runs while mutators are stopped",
+      rule=SCHED_RULE + "C11 automaton: within each GC stop_all_mutators is entered and returns exactly once, before the first stop-the-world bucket opens and before any stop-the-world packet, object scan or "
+           "copy starts; every bound mutator and the VM-specific roots are scanned once per root-scanning round; resume_mutators is called once, after every stop-the-world packet has finished and none is pending; "
+           "block_for_gc/handle_user_collection_request return only after a GC ended; the binding itself asserts no mutator runs an operation between stop and resume; "
+           "case = one stop-the-world packet start or one GC; distinct = (#mutators, #workers, root-scanning rounds, log2 #packets of the GC)",
+      technique="online trace-automaton monitor over the scheduler/binding event log of live GCs (ordering: X never before Y / exactly-once per GC)",
+      level_text="Every stop-the-world packet start, object scan, first copy and binding callback of every GC in the run is ordered against stop_all_mutators / resume_mutators by global sequence number.",
+      note="Concurrent (non-STW) packets of ConcurrentImmix are identified by their bucket and are exempt, as the property says.",
+      design_ref="2/C11",
+      shards=lambda tier, seed: sched_shards(tier, seed, 11),
+      floors={"quick": {"gcs_checked": 1500, "evaluations": 200000, "user_gc_requests": 300}})
+
+gcsim("C14", "GC requests are neither lost nor deadlocked",
+      rule=SCHED_RULE + "C14 automaton: every goal request is followed by a goal start and finish (bounded: the run ends with no pending request and a watchdog with a deadlock predicate - all workers parked, "
+           "a goal requested or STW packets pending, no progress for 20 s - turns a hang into a violation with the parked/pending state as witness); exactly one worker makes the last-parked decision per quiescence; "
+           "a worker never parks while an open bucket holds packets it could run; coalesced requests are allowed; "
+           "case = one last-parked decision; distinct = (goal state, #parked, open-bucket vector, decision) states seen",
+      technique="online trace-automaton monitor over the WorkerMonitor/WorkerGoals event log + bounded-progress watchdog (liveness restated as bounded progress)",
+      level_text="All park/unpark/last-parked/goal transitions the runs produce are checked; liveness only as bounded progress: every request made during the run is served before the run ends.",
+      note="'Eventually' is decided as 'within the watchdog budget with all threads idle', which is the strongest runtime monitoring can give.",
+      design_ref="2/C14",
+      shards=lambda tier, seed: sched_shards(tier, seed, 14),
+      floors={"quick": {"gc_requests": 1500, "gc_starts": 1500, "last_parked_wakeall": 5000, "last_parked_parkself": 5000, "distinct_scheduler_states": 150, "user_gc_round_trips": 300}})
+
+gcsim("C15", "Work buckets open in stage order and every packet runs exactly once",
+      rule=SCHED_RULE + "C15 automaton: each packet id is added once, started once, ended once, in that order and within the GC it was added for (stop-the-world buckets); a packet of a stop-the-world bucket never starts "
+           "while its bucket is closed; a bucket opens only when every earlier stop-the-world bucket is open and drained and no worker is running a packet of an earlier bucket (designated work included); at GC end "
+           "all stop-the-world buckets are closed and empty; case = one sequential bucket opening; distinct = (stage, #running, pending class)",
+      technique="online exactly-once / ordering checker over unique packet ids in the event log",
+      level_text="Unique packet ids make the history unambiguous: add/start/end are matched per id; bucket-open events are checked against the recorded contents and running set of every earlier bucket.",
+      note="User-injected fan-out packets add children to the same or later stages, as plan packets do.",
+      design_ref="2/C15",
+      shards=lambda tier, seed: sched_shards(tier, seed, 15),
+      floors={"quick": {"gcs_checked": 1500, "sequential_bucket_opens_checked": 20000, "packets_started": 200000, "user_packet_trees_injected": 500}})
+
+gcsim("C16", "Fork support: workers surrender and respawn cleanly",
+      rule=SCHED_RULE + "scenario fork: mutator 0 repeatedly calls prepare_to_fork, waits until every GC thread returned its GCWorker, then after_fork, while other mutators keep requesting GCs; C16 automaton: every worker surrenders exactly once per "
+           "StopForFork goal and only when no GC is in progress, no packet is executing and no stop-the-world packet is pending; after_fork spawns exactly the configured number of workers, each with a distinct ordinal; GCs requested "
+           "before/while forking are served after respawn; finally the run ends; case = one surrender; distinct = (#workers, pending-request?, round)",
+      technique="online trace-automaton monitor over the worker lifecycle events of live prepare_to_fork/after_fork round trips",
+      level_text="Dozens of fork round trips per process, racing with GC requests from other mutators, are checked for clean surrender and complete respawn; GCs after respawn are checked by the C01 oracle.",
+      note="No real fork(2) is performed (a forked multi-threaded child cannot run the harness); the property's protocol is prepare_to_fork/after_fork.",
+      design_ref="2/C16",
+      shards=lambda tier, seed: sched_shards(tier, seed, 16, scenario="fork", plans=["SemiSpace", "GenImmix", "Immix", "MarkSweep", "MarkCompact", "ConcurrentImmix", "StickyImmix", "Compressor"]),
+      floors={"quick": {"fork_round_trips": 150, "surrenders": 400, "workers_spawned": 400, "exit_requested_while_gc_pending_or_running": 5}})
